@@ -51,6 +51,10 @@ type c14Case struct {
 	// (which renegotiates the capabilities).
 	Prelude string `json:"prelude,omitempty"`
 	Reset   bool   `json:"reset,omitempty"`
+	// LocalRefusal: before the judged Mail, and again before the judged Rcpt,
+	// a call that the client itself turns down (an unknown RET value, an
+	// unknown NOTIFY item): nothing was sent, nothing is left over
+	LocalRefusal bool `json:"local_refusal,omitempty"`
 	// Frag > 0: the server's replies reach the client in segments of at most
 	// Frag octets (a network may deliver a reply octet by octet)
 	Frag int `json:"frag,omitempty"`
@@ -137,9 +141,21 @@ func c14Run(c c14Case) Verdict {
 				return
 			}
 		}
+		if c.LocalRefusal {
+			if err := cl.Mail("refused@x", &smtp.MailOptions{Size: 77, EnvelopeID: "left+over=", Return: smtp.DSNReturn("SOMETHING")}); err == nil {
+				preErr = fmt.Errorf("prelude: Mail with an unknown RET value was not refused")
+				return
+			}
+		}
 		mailErr = cl.Mail(c.From, mo)
 		if mailErr != nil {
 			return
+		}
+		if c.LocalRefusal {
+			if err := cl.Rcpt("refused@y", &smtp.RcptOptions{Notify: []smtp.DSNNotify{smtp.DSNNotify("SOMETIMES")}, OriginalRecipientType: smtp.DSNAddressTypeRFC822, OriginalRecipient: "left@over"}); err == nil {
+				preErr = fmt.Errorf("prelude: Rcpt with an unknown NOTIFY item was not refused")
+				return
+			}
 		}
 		rcptErr = cl.Rcpt(c.To, ro)
 	})
@@ -588,6 +604,7 @@ func c14Gen(t *rapid.T) c14Case {
 	}
 	if rapid.IntRange(0, 2).Draw(t, "prelude") == 0 {
 		c.Prelude = rapid.SampledFrom([]string{"", "auth", "txn", "auth+txn"}).Draw(t, "prelude_kind")
+		c.LocalRefusal = rapid.Bool().Draw(t, "local_refusal")
 		c.Reset = rapid.Bool().Draw(t, "reset")
 	}
 	c.HasRcptOpts = rapid.IntRange(0, 9).Draw(t, "ro") != 0
